@@ -48,11 +48,16 @@ META = {
             "size); the real CountingContext is driven by op count against PopData::estimateSize/toVbkEncoding().size() with "
             "limits at the exact boundary +-1 around the 255->256 prefix growth of each kind. BFI bitcoin wire types (C11_bfi_*, "
             "coq/Bfi): compact size (round trip, size, canonical decoding incl. the non-canonical and MAX_SIZE rejections), "
-            "little-endian integers, Blob<N>, byte vectors/strings, vectors of T, field sequences are modelled, proved "
+            "little-endian integers, Blob<N>, byte vectors/strings, vectors of T, field sequences, OutPoint, TxIn, TxOut, "
+            "ScriptWitness, Transaction (both stream versions; witness marker/flags format with its Superfluous/Unknown "
+            "rejections; premise: with witnesses allowed an input-less transaction has no outputs, refuted otherwise), "
+            "BlockHeader and Block are modelled, proved "
             "(codec_ok: round trip with tail, GetSerializeSize = bytes written, whatever decodes is the canonical encoding of "
             "its value) and compared with the real Serialize/Unserialize/GetSerializeSize templates (harness/h_bfi.cpp) "
-            "on boundary lengths 0,1,252..257,65534..65537, MAX_SIZE+-1 and hostile streams. "
-            "Not modelled: VarInt, bool (decodes any non-zero byte as true), float/double, map/set/pair/shared_ptr, "
+            "on boundary lengths 0,1,252..257,65534..65537, MAX_SIZE+-1 and hostile streams (non-canonical and oversized "
+            "counts, every flags byte, all prefixes, byte mutations; exceptions mapped to error kinds that must agree). "
+            "Transaction/Block have no GetSerializeSize (CSizeComputer lacks getVersion()): their size figure is the encoded "
+            "length by definition. Not modelled: VarInt, bool (decodes any non-zero byte as true), float/double, map/set/pair/shared_ptr, "
             "LimitedString, BlockLocator, bfi/bitcoin/net messages, the PopData blob inside a wire block, "
             "PopPayouts. Stored "
             "indices are decoded from bytes only (no enc op).",
